@@ -112,7 +112,9 @@ def run(tier, res, replay=None):
             'rod2-dd-stagnant', 'multi-simple', 'multi-6node',
             'lowfi-simple', 'rod2-3duct', 'rod2-convapprox', 'opt-se2geo',
             'opt-3duct-convapprox', 'opt-dd-regions-adiabatic-gravity',
-            'opt-uctd-grid-regions', 'opt-delta-temp-bc-noflowgap']
+            'opt-uctd-grid-regions', 'opt-delta-temp-bc-noflowgap',
+            'opt-five-regions', 'opt-only-lower-region-dd',
+            'opt-htc-custom-dd', 'opt-lowfi-cf-float']
     lab = [(k, sl[k], 60 if tier == 'quick' else None) for k in keys]
     # un-rodded regions of both kinds with the adiabatic option
     for k in ('multi-6node', 'multi-simple', 'multi-convfactor'):
